@@ -5,6 +5,7 @@ package c08
 import (
 	"bytes"
 	"fmt"
+	"github.com/google/martian/v3/h2"
 	"sort"
 	"strings"
 	"sync"
@@ -366,8 +367,13 @@ func classes(c Case) []string {
 	if dribbledPreface(c) {
 		set["dribbled-preface"] = true
 	}
-	if c.Procs > 0 {
+	if c.Procs > 0 || len(c.Chain) > 0 {
 		set["stream-processors"] = true
+	}
+	for _, k := range c.Chain {
+		if k == 2 || k == 3 {
+			set["processor-for-one-direction-only"] = true
+		}
 	}
 	if c.CWin.Mode == "early" {
 		set["credit-before-first-frame"] = true
@@ -854,6 +860,13 @@ const (
 	sigPushCont = "C08/push-promise/continued-block/relay-direction-aborted"
 )
 
+func factories(c Case) []h2.StreamProcessorFactory {
+	if len(c.Chain) > 0 {
+		return h2kit.Chain(c.Chain)
+	}
+	return h2kit.Factories(c.Procs)
+}
+
 func largeFrames(frames []Frame) bool {
 	for _, f := range frames {
 		if f.T == "D" && f.N > 16384 {
@@ -902,7 +915,7 @@ func runOnce(c Case, bound time.Duration, vr variant) (v kit.Verdict, slow bool)
 		}
 	}
 	base := h2kit.RelayLoops()
-	s, err := h2kit.Open(h2kit.Options{Pieces: pieces, Factories: h2kit.Factories(c.Procs), Bound: bound, DebugLogs: c.Debug})
+	s, err := h2kit.Open(h2kit.Options{Pieces: pieces, Factories: factories(c), Bound: bound, DebugLogs: c.Debug})
 	if err != nil {
 		return kit.Failf("C08/session/setup/relay-did-not-connect", "%v", err), true
 	}
